@@ -51,7 +51,7 @@ func eqTerms(a Atom, be *BigEval) (Term, Term, bool) {
 	if !isC || bigMethod(c) != "Cmp" {
 		return Term{}, Term{}, false
 	}
-	ts := be.At[c]
+	ts := be.at(c)
 	if len(ts) != 2 {
 		return Term{}, Term{}, false
 	}
@@ -73,8 +73,7 @@ func modInverseRule(P *Program, R *Report) {
 		return
 	}
 	be := P.bigEval(fn)
-	mp(P, R, rule, k+":coprime-tested", "ok == true => gcd(a, n) == 1 was tested", fn, AcceptTrue(1), &MustPass{NoInterproc: true,
-		Match: eqTermMatcher(be, termFn("GCD", tsym("arg#0"), tsym("arg#1")), tconst(1))})
+	mp(P, R, rule, k+":coprime-tested", "ok == true => gcd(a, n) == 1 was tested", fn, AcceptTrue(1), &MustPass{Match: eqTermMatcher(be, termFn("GCD", tsym("arg#0"), tsym("arg#1")), tconst(1))})
 	// the returned object is the x of g.GCD(x, y, a, n), i.e. the coefficient of a
 	var gcd *ssa.Call
 	for _, c := range callsIn(fn) {
@@ -112,8 +111,7 @@ func modInverseRule(P *Program, R *Report) {
 			if okv, isB := boolConst(retValue(r, 1)); !isB || !okv {
 				continue
 			}
-			q := &MustPass{P: P, NoInterproc: true,
-				Match: func(a Atom) bool {
+			q := &MustPass{P: P, Match: func(a Atom) bool {
 					g, ok := parseGuard(a, be)
 					return ok && g.Kind == "big" && g.SubjV != nil && siteOf(g.SubjV) == xSite && ((g.Rel == ">=" && g.Bound.equal(tconst(1))) || (g.Rel == ">" && g.Bound.equal(tconst(0))))
 				},
@@ -122,7 +120,7 @@ func modInverseRule(P *Program, R *Report) {
 					if !ok || bigMethod(c) != "Add" || siteOf(c.Call.Args[0]) != xSite {
 						return false
 					}
-					ts := be.At[c]
+					ts := be.at(c)
 					return len(ts) == 3 && ((ts[1].equal(bx) && ts[2].equal(tsym("arg#1"))) || (ts[2].equal(bx) && ts[1].equal(tsym("arg#1"))))
 				}}
 			q.init()
@@ -194,13 +192,13 @@ func modPowRule(P *Program, R *Report) {
 		if !isC || bigMethod(c) != "Exp" {
 			continue
 		}
-		ts := be.At[call]
+		ts := be.at(call)
 		if len(ts) < 2 || !ts[1].equal(termFn("ModInverse", x, m)) {
 			continue
 		}
 		inv := call.Call.Args[1]
 		nInv++
-		q := &MustPass{P: P, NoInterproc: true, Match: func(a Atom) bool { return siteOf(a.V) == siteOf(inv) && a.Want == NonNil }}
+		q := &MustPass{P: P, Match: func(a Atom) bool { return siteOf(a.V) == siteOf(inv) && a.Want == NonNil }}
 		q.init()
 		r := q.search(fn, AcceptAny(), 0, searchOpts{startAt: []*mpState{{b: call.Block(), note: "use at " + P.Pos(call.Pos())}}, startInstr: call})
 		R.decide(rule, k+":inverse-checked", "the modular inverse is tested non-nil before it is used", r.Holds, r.Path, P.Pos(call.Pos()))
@@ -216,8 +214,7 @@ func crtRule(P *Program, R *Report) {
 	}
 	be := P.bigEval(fn)
 	a, pa, b, pb := tsym("arg#0"), tsym("arg#1"), tsym("arg#2"), tsym("arg#3")
-	mp(P, R, rule, k+":coprime-tested", "a value is returned only after gcd(pa, pb) == 1 was tested", fn, AcceptAny(), &MustPass{NoInterproc: true,
-		Match: eqTermMatcher(be, termFn("GCD", pa, pb), tconst(1))})
+	mp(P, R, rule, k+":coprime-tested", "a value is returned only after gcd(pa, pb) == 1 was tested", fn, AcceptAny(), &MustPass{Match: eqTermMatcher(be, termFn("GCD", pa, pb), tconst(1))})
 	want := termFn("Mod", tsum(tmul(tmul(a, termFn("BezoutY", pa, pb)), pb), tmul(tmul(b, termFn("BezoutX", pa, pb)), pa)), tmul(pa, pb))
 	n, ok := 0, true
 	var got []string
@@ -243,8 +240,7 @@ func primeSqrtRule(P *Program, R *Report) {
 	a, p := tsym("arg#0"), tsym("arg#1")
 	euler := termFn("Exp", a, termFn("Rsh", p, tconst(1)), p)
 	zero := eqTermMatcher(be, a, tconst(0))
-	mp(P, R, rule, k+":existence", "true is returned only for a == 0 or after a^(p>>1) mod p == 1 was tested", fn, AcceptTrue(1), &MustPass{NoInterproc: true,
-		Match: anyOf(zero, eqTermMatcher(be, euler, tconst(1)))})
+	mp(P, R, rule, k+":existence", "true is returned only for a == 0 or after a^(p>>1) mod p == 1 was tested", fn, AcceptTrue(1), &MustPass{Match: anyOf(zero, eqTermMatcher(be, euler, tconst(1)))})
 	// false carries no value
 	okFail := true
 	for _, r := range returnsOf(fn) {
@@ -280,10 +276,10 @@ func modSqrtRule(P *Program, R *Report) {
 	}
 	be := P.bigEval(fn)
 	fa := &ForAll{P: P, Spec: ForAllSpec{Coll: is("arg#1"), Body: func(_ *ssa.Function, l *Loop) *MustPass {
-		return &MustPass{NoInterproc: true, Match: func(a Atom) bool {
+		return &MustPass{Match: func(a Atom) bool {
 			// PrimeSqrt(a mod fac, fac) reported a root
 			if c, idx := callAndResult(a.V); c != nil && calleeName(c) == "common.PrimeSqrt" && idx == 1 && a.Want == True {
-				ts := be.At[c]
+				ts := be.at(c)
 				d1 := desc(c.Call.Args[1])
 				return (d1 == "arg#1[#i]" || d1 == "arg#1[*]") && len(ts) >= 1 && ts[0].equal(termFn("Mod", tsym("arg#0"), tsym(d1)))
 			}
@@ -434,7 +430,7 @@ func fastModRule(P *Program, R *Report) {
 		if isFallback(r.Results[0]) {
 			continue
 		}
-		q := &MustPass{P: P, NoInterproc: true, Match: func(a Atom) bool {
+		q := &MustPass{P: P, Match: func(a Atom) bool {
 			g, ok := parseGuard(a, be)
 			return ok && g.Kind == "big" && g.Subject == "arg#2" && g.Rel == ">=" && g.Bound.equal(tconst(0))
 		}}
@@ -499,8 +495,7 @@ func fastModRule(P *Program, R *Report) {
 			continue
 		}
 		// plain `return ret`: on every path to it either ret < p was established or ret -= p executed
-		q := &MustPass{P: P, NoInterproc: true,
-			Match: func(a Atom) bool {
+		q := &MustPass{P: P, Match: func(a Atom) bool {
 				gd, ok := parseGuard(a, be)
 				return ok && gd.Kind == "big" && gd.Subject == "arg#1" && gd.Rel == "<" && gd.Bound.equal(tsym(fm+".p"))
 			},
@@ -554,7 +549,7 @@ func groupExpRule(P *Program, R *Report) {
 		if !isC || bigMethod(c) != "Add" {
 			continue
 		}
-		ts := be.At[call]
+		ts := be.at(call)
 		if len(ts) == 3 && ((ts[1].equal(tsym("arg#3")) && ts[2].equal(tsym(ord))) || (ts[2].equal(tsym("arg#3")) && ts[1].equal(tsym(ord)))) {
 			add = call
 		}
@@ -616,7 +611,7 @@ func groupExpRule(P *Program, R *Report) {
 		okSrc = okSrc && n == 2
 	}
 	R.decide(rule, k+":exponent-source", "the exponent used is the argument or its folded value, nothing else", okSrc, "", P.Pos(texp.Pos()))
-	mp0 := &MustPass{P: P, NoInterproc: true, Match: func(a Atom) bool {
+	mp0 := &MustPass{P: P, Match: func(a Atom) bool {
 		bo, ok := a.V.(*ssa.BinOp)
 		if !ok {
 			return false
